@@ -14,7 +14,11 @@ C          real binary, generated projects: every file alone (raw reports with -
            location macros from --dump) gives the per-file trace; the driver predicts the alone run and every company run
            (several orders) from the traces; predictions are compared with the real -j1 runs (printed findings in order, exit code),
            with and without a build dir (analyzer-information files, warm cache)
-P_impl     model-free: set of printed non-whole-program findings of the company run = union of the alone runs; per-file
+           unmatchedSuppression: mark_frame / checked_frame (the checked flag of an entry is only set by files whose token list
+           names the entry's file, or by messages that touch it), dead_suppression_stays_unchecked, mark_by_index_counterexample;
+           driver's getUnmatchedInlineSuppressions of the final state = the real unmatchedSuppression findings, alone and in company
+P_impl     model-free: set of printed non-whole-program findings of the company run = union of the alone runs; the
+           unmatchedSuppression findings located in a source file are the same in company and alone; per-file
            analyzer-information contents company = alone; the same through --project=compile_commands.json with per-file defines
            (check(FileSettings)); thorough tier also thread / process executors
 """
@@ -59,6 +63,9 @@ THEOREMS = ["Cppcheck.RunState.file_findings_independent", "Cppcheck.RunState.fi
             "Cppcheck.RunState.supprMatches_exact_file", "Cppcheck.RunState.stateAfter_supprs_origin",
             "Cppcheck.RunState.stateAfter_supprs_no_inline", "Cppcheck.RunState.independent_without_inline_suppr",
             "Cppcheck.RunState.run_independent_without_inline_suppr",
+            "Cppcheck.RunState.mark_frame", "Cppcheck.RunState.checked_frame", "Cppcheck.RunState.stateAfter_checked_origin",
+            "Cppcheck.RunState.not_couldCheck_of_cannotCheck", "Cppcheck.RunState.dead_suppression_stays_unchecked",
+            "Cppcheck.RunState.mark_by_index_counterexample",
             "Cppcheck.RunState.file_findings_independent_counterexample_foreign_suppression",
             "Cppcheck.RunState.file_findings_independent_counterexample_macro_suppression",
             "Cppcheck.RunState.file_findings_independent_counterexample_leaked_filter_before_repair",
@@ -234,6 +241,23 @@ def translate_state(ctx, res):
     res.oblig("translation:inline-file-test-is-PathMatch", pm_ok, "translation",
               "" if pm_ok else "Suppression::isSuppressed no longer tests the file name of every suppression with PathMatch::match (the model of record)")
     ok &= pm_ok
+    # markUnmatchedInlineSuppressionsAsChecked decides "this entry belongs to the file of the token" by file NAME for every entry
+    # (model: markStep / Cfg.fileOf).  An index into a per-translation-unit file table must not be compared: the list is shared.
+    try:
+        k = sup.index("void SuppressionList::markUnmatchedInlineSuppressionsAsChecked(const TokenList &tokenlist)")
+        body, _ = _body(sup, k)
+        b = re.sub(r"\s+", " ", _strip_comments(body))
+        by_name = len(re.findall(r"suppression\.fileName == tokenlist\.file\(tok\)", b))
+        branches = len(re.findall(r"suppression\.checked = true;", b))
+        mk_ok = (by_name == 3 and branches == 3 and re.search(r"suppression\.\s*fileIndex|isInline", b) is None and
+                 "suppression.lineNumber == currLineNr" in b and "suppression.lineBegin <= currLineNr" in b and "suppression.lineEnd >= currLineNr" in b)
+    except (ValueError, NameError):
+        mk_ok = False
+    res.oblig("translation:mark-checked-by-file-name", mk_ok, "translation",
+              "" if mk_ok else "markUnmatchedInlineSuppressionsAsChecked is not the modelled shape: three branches (unique: line, block: range, "
+              "other: any line), each guarded by `suppression.fileName == tokenlist.file(tok)` and nothing else that identifies the file "
+              "(no fileIndex, no isInline case split)")
+    ok &= mk_ok
     return info if ok else None
 
 
@@ -365,6 +389,11 @@ def gen_text(rng, path, is_header, includes, stats, force_div=None):
         kinds = ["zerodiv", "nullptr", "uninit", "clean"] + (["macro", "macro"] if has_div else [])
         kind = rng.choice(kinds)
         fn = "%s_f%d" % (base, j)
+        if rng.random() < 0.3:
+            # an inline suppression inside `#if 0`: it matches nothing and its line reaches no token list, so nothing may ever
+            # mark it as checked - unless another file's lines are taken for this file's
+            lines += ["#if 0", "  // cppcheck-suppress %s" % rng.choice(IDS), "  old_%s(%d);" % (fn, j), "#endif"]
+            stats("suppr:dead-code")
         sl, idx, fid = snippet(rng, kind, fn, rng.randrange(1, 9))
         if is_header:
             sl[0] = "static " + sl[0]
@@ -482,13 +511,17 @@ def parse_dump(path):
                            lb=int(s.get("lineBegin") or -1), le=int(s.get("lineEnd") or -1)))
     dumps = root.findall("dump")
     macros = {}
+    toks = []
     for d in dumps[-1:]:
         tl = d.find("tokenlist")
         for t in (tl if tl is not None else []):
             mn = t.get("macroName")
             if mn:
                 macros.setdefault((t.get("file"), int(t.get("linenr"))), set()).add(mn)
-    return supprs, macros, len(dumps)
+            fl = (t.get("file"), int(t.get("linenr")))
+            if not toks or toks[-1] != fl:
+                toks.append(fl)
+    return supprs, macros, len(dumps), toks
 
 
 def macro_name_at(d, file, line):
@@ -522,6 +555,10 @@ def enc_finding(f, tpl, tagidx):
 
 def enc_trace(tr):
     evs = ["1" if tr.get("early") else "0"]
+    if tr.get("probe"):
+        evs.append("P" + tr["probe"])
+    for p in tr.get("probes") or []:
+        evs.append("P" + p)
     for s in tr["supprs"]:
         evs.append("S" + enc_suppr(s))
     if tr.get("remarks") is not None:
@@ -529,6 +566,8 @@ def enc_trace(tr):
     if tr.get("macros") is not None:
         evs.append("M" + ("+".join("%s@%d@%s" % (core.hx(f), l, "&".join(core.hx(n) for n in sorted(ns)))
                                    for (f, l), ns in sorted(tr["macros"].items())) or "."))
+    if tr.get("marks") is not None:
+        evs.append("K" + ("+".join("%s@%d" % (core.hx(f), l) for f, l in tr["marks"]) or "."))
     for x in tr["reports"]:
         evs.append("X" + x)
     return "|".join(evs)
@@ -547,9 +586,31 @@ def parse_model(line):
         if p.startswith("SHOWN="):
             shown = [t for t in p[6:].split(",") if t]
             continue
+        if p.startswith("UNM="):
+            continue
         d = dict(kv.split("=", 1) for kv in p.split(";"))
         per.append(dict(F=[t for t in d["F"].split(",") if t], R=[t for t in d["R"].split(",") if t], E=int(d["E"]), I=d["I"]))
     return per, shown
+
+
+def parse_unm(line):
+    """driver answer -> set of (id, file, line) of the inline suppressions getUnmatchedInlineSuppressions returns"""
+    out = set()
+    for p in line.split(" "):
+        if p.startswith("UNM="):
+            for u in [x for x in p[4:].split(",") if x]:
+                i, f, l = u.split("@")
+                out.add((core.unhx(i).decode("latin-1"), core.unhx(f).decode("latin-1"), int(l)))
+    return out
+
+
+def real_unmatched(findings):
+    """(id, file, line) of the unmatchedSuppression findings of a run"""
+    out = set()
+    for x in findings:
+        if x["id"] == "unmatchedSuppression" and x["locs"] and x["msg"].startswith("Unmatched suppression: "):
+            out.add((x["msg"][len("Unmatched suppression: "):], x["locs"][0][0], int(x["locs"][0][1])))
+    return out
 
 
 def untag(t):
@@ -587,7 +648,7 @@ def observe_alone(ctx, d, proj, f):
                           cwd=d, timeout=120)
     if f.endswith(".qml"):
         # markup file: checkInternal returns before anything is read into the logger (no suppressions, no dump)
-        dump = ([], {}, 1)
+        dump = ([], {}, 1, [])
     else:
         dump = parse_dump(os.path.join(d, f + ".dump"))
     try:
@@ -599,7 +660,7 @@ def observe_alone(ctx, d, proj, f):
 
 
 def build_trace(d, proj, f, obs, tags):
-    supprs, macros, ncfg = obs["dump"]
+    supprs, macros, ncfg, toks = obs["dump"]
     S = []
     for s in supprs:
         s = dict(s)
@@ -612,9 +673,11 @@ def build_trace(d, proj, f, obs, tags):
             rem.append((hf, line, text))
     # only the remarks of files this translation unit contains are set; a foreign file's remark cannot match its locations anyway
     reports = [enc_finding(x, proj["opts"]["template"], tags.of(x)) for x in non_wp(obs["raw"])]
+    # CppCheck::check(file): the dummy isSuppressed call with an empty id for the path of the file
+    probe = ":".join([core.hx(""), "0", core.hx(f), "-1", core.hx(""), core.hx("probe"), "0", "0", core.hx("probe")])
     if f.endswith(".qml"):
-        return dict(supprs=[], remarks=None, macros=None, reports=reports, early=True)
-    return dict(supprs=S, remarks=rem, macros=macros, reports=reports, early=False)
+        return dict(supprs=[], remarks=None, macros=None, reports=reports, early=True, probe=probe, marks=None)
+    return dict(supprs=S, remarks=rem, macros=macros, reports=reports, early=False, probe=probe, marks=sorted(set(toks), key=toks.index))
 
 
 def flags(variant, emit=False):
@@ -641,6 +704,39 @@ def classify_one(x, order, traces):
                         (s["type"] != "block" or s["lb"] <= int(loc[1]) <= s["le"]):
                     hit = K_TAIL
     return hit
+
+
+def classify_unmatched(u, in_company, f, order, traces, obs):
+    """known class of a difference in the unmatchedSuppression findings located in the source file f (u = (id, file, line)):
+    the path-tail rule (F17a) or the macro rule (F17b) lets a finding of ANOTHER file of the run reach f's entry"""
+    uid, ufile, uline = u
+    entry = next((s for s in traces[f]["supprs"] if (s["id"], s["file"], s["line"]) == u), None)
+    if entry is None:
+        return None
+    for g in order:
+        if g == f or g not in obs:
+            continue
+        for x in obs[g]["raw"] or []:
+            loc = x["locs"][0] if x["locs"] else None
+            if not loc:
+                continue
+            if entry["type"] == "macro":
+                # matched in company by a finding of g on a line that uses a macro of that name
+                if not in_company and x["id"] == uid and any(entry.get("macro") in ns for (mf, ml), ns in (traces[g]["macros"] or {}).items()
+                                                            if mf == loc[0] and str(ml) == loc[1]):
+                    return K_MACRO
+                continue
+            tail = loc[0] != ufile and loc[0].endswith("/" + ufile)
+            line_ok = entry["type"] != "unique" or str(uline) == loc[1]
+            block_ok = entry["type"] != "block" or entry["lb"] <= int(loc[1]) <= entry["le"]
+            if tail and line_ok:
+                # in company the entry is matched (same id) or merely touched = checked (any id) by g's finding
+                if (not in_company and x["id"] == uid and block_ok) or in_company:
+                    return K_TAIL
+        # the dummy isSuppressed call of check(g) touches file / block entries whose name is a path tail of g
+        if in_company and entry["type"] in ("file", "block") and g.endswith("/" + ufile):
+            return K_TAIL
+    return None
 
 
 def classify(proj, d, order, missing, extra, traces, tags_items, variant):
@@ -694,10 +790,18 @@ def eval_project(ctx, res, drv, proj, variant, k, orders=None, extra_exec=False)
             return None
     traces = {f: build_trace(d, proj, f, obs[f], tags) for f in srcs}
     proj["_alone"] = {f: non_wp(obs[f]["alone"]) for f in srcs}
+    # the whole-program phase asks the suppression list about its findings too (flags only): one pseudo file of probes
+    wp_raw = {f: [x for x in obs[f]["raw"] if x["id"] in WP_IDS and x["id"] not in ("unmatchedSuppression", "checkersReport")] for f in srcs}
+
+    def wp_trace(files):
+        return dict(supprs=[], remarks=None, macros=None, reports=[], early=True, marks=None,
+                    probes=[enc_finding(x, opts["template"], tags.of(x)) for g in files for x in wp_raw[g]])
+    unm_ok = opts["enable"] == "all" and opts["template"] == T_FULL
+    inline_all = set((s["id"], s["file"], s["line"]) for f in srcs for s in traces[f]["supprs"])
     init = ";".join(enc_suppr(parse_cmd_suppr(s)) for s in opts["suppress"]) or "."
     fl = flags(variant, emit=bool(opts.get("emit")))
     # 1. the model reproduces every alone run from the trace
-    ops = ["run %s %s %s" % (fl, init, enc_trace(traces[f])) for f in srcs]
+    ops = ["run %s %s %s %s" % (fl, init, enc_trace(traces[f]), enc_trace(wp_trace([f]))) for f in srcs]
     rng = ctx.rng
     if orders is None:
         orders = [sorted(srcs), sorted(srcs, reverse=True)]
@@ -706,7 +810,7 @@ def eval_project(ctx, res, drv, proj, variant, k, orders=None, extra_exec=False)
             rng.shuffle(o)
             if o not in orders:
                 orders.append(o)
-    ops += ["run %s %s %s" % (fl, init, " ".join(enc_trace(traces[f]) for f in o)) for o in orders]
+    ops += ["run %s %s %s %s" % (fl, init, " ".join(enc_trace(traces[f]) for f in o), enc_trace(wp_trace(o))) for o in orders]
     rc, mo, me = core.run_lines(drv, [], ops)
     if len(mo) != len(ops) or any(l == "bad-op" for l in mo):
         raise core.CheckBroken("C17 driver rejected an op: %s / %s" % ([o[:200] for o, l in zip(ops, mo) if l == "bad-op"][:1], me[-300:]))
@@ -718,11 +822,19 @@ def eval_project(ctx, res, drv, proj, variant, k, orders=None, extra_exec=False)
         okc = want == got
         if opts["enable"] != "all":
             okc = okc and ((obs[f]["rc"] == 9) == (per[0]["E"] != 0))
+        unm_model, unm_real = None, None
+        if unm_ok:
+            # unmatchedSuppression findings for inline suppressions = getUnmatchedInlineSuppressions of the model's final state
+            unm_model = sorted(parse_unm(mo[i]))
+            unm_real = sorted(real_unmatched(obs[f]["alone"]) & inline_all)
+            okc = okc and unm_model == unm_real
+            res.count("unmatched-inline:alone:%d" % min(len(unm_real), 2))
         res.case("alone|" + ops[i], len(got) > 0, None)
         if okc:
             res.traces_validated += 1
         else:
-            bad_alone.append(dict(file=f, model=want, impl=got, rc=obs[f]["rc"], modelE=per[0]["E"], text=proj["files"][f]))
+            bad_alone.append(dict(file=f, model=want, impl=got, rc=obs[f]["rc"], modelE=per[0]["E"], unmatched_model=unm_model,
+                                  unmatched_impl=unm_real, text=proj["files"][f]))
     # 2. company runs
     viol = []
     union = {}
@@ -736,6 +848,7 @@ def eval_project(ctx, res, drv, proj, variant, k, orders=None, extra_exec=False)
         if comp is None:
             res.oblig("machinery:company-run", False, "machinery", "no xml from company run: " + se[-300:])
             continue
+        comp_all = comp
         comp = non_wp(comp)
         per, shown = parse_model(mo[len(srcs) + j])
         want = [(tags.items[untag(t)[0]], untag(t)[1]) for t in shown]
@@ -743,6 +856,27 @@ def eval_project(ctx, res, drv, proj, variant, k, orders=None, extra_exec=False)
         okc = want == got
         if opts["enable"] != "all":
             okc = okc and ((rcc == 9) == any(p["E"] != 0 for p in per))
+        unm_model, unm_real = None, None
+        if unm_ok:
+            unm_model = sorted(parse_unm(mo[len(srcs) + j]))
+            unm_real = sorted(real_unmatched(comp_all) & inline_all)
+            okc = okc and unm_model == unm_real
+            # P_impl for the unmatchedSuppression findings located in a source file: company = alone
+            for f in o:
+                if f not in traces or not f.endswith(".c"):
+                    continue
+                # inline suppressions only: the "file" of an unmatched command-line suppression is its pattern (zerodiv:a.c is
+                # meant to cover lib/a.c as well), not a file of the run
+                ua = set(u for u in real_unmatched(obs[f]["alone"]) if u[1] == f and u in inline_all)
+                uc = set(u for u in real_unmatched(comp_all) if u[1] == f and u in inline_all)
+                res.count("unmatched-in-source:" + ("same" if ua == uc else "differs"))
+                for u in sorted(ua ^ uc):
+                    key = classify_unmatched(u, u in uc, f, o, traces, obs)
+                    viol.append((key, o, [], []))
+                    res.violation("company run %s: unmatchedSuppression %s located in %s is %s, but %s when %s is analysed alone" %
+                                  (o, u, f, "reported" if u in uc else "not reported", "not reported" if u in uc else "reported", f),
+                                  dict(files=proj["files"], order=o, opts=opts, unmatched=list(u), company=sorted(uc), alone=sorted(ua)),
+                                  concrete=True, key=key)
         res.case("company|" + ops[len(srcs) + j], nontriv,
                  dict(order=o, template=opts["template"], impl=[g[0][:80] for g in got][:4], model=[w[0][:80] for w in want][:4],
                       indep=[p["I"] for p in per]) if (k + j) % 17 == 0 else None)
@@ -751,7 +885,8 @@ def eval_project(ctx, res, drv, proj, variant, k, orders=None, extra_exec=False)
         if okc:
             res.traces_validated += 1
         else:
-            bad_comp.append(dict(order=o, model=want, impl=got, rc=rcc, modelE=[p["E"] for p in per]))
+            bad_comp.append(dict(order=o, model=want, impl=got, rc=rcc, modelE=[p["E"] for p in per], unmatched_model=unm_model,
+                                 unmatched_impl=unm_real))
         # P_impl, independent of the model
         gset = set(t for t, _ in got)
         missing = [union[t] for t in union if t not in gset]
